@@ -43,15 +43,20 @@ RULE = ("cases: hosts files of 0..8 lines rendered from (address, names) mapping
 ASSUMPTIONS = [
     "Ip/IpModel.v is transcribed from core::net::parser / Display for Ipv{4,6}Addr of the nightly toolchain /repo builds with; "
     "the harness is built with the default stable toolchain -- both are exercised (binaries: nightly, harness: stable) and agree with the model on the stream",
-    "HashMap/HashSet iteration order is not modelled; the drivers sort maps by name before printing, theorems are up to permutation",
-    "hosts_roundtrip takes the IPv6 text codec round trip (parse_ip (show_v6 g) = Some (V6 g), printed text over [0-9a-f:.]) as a "
-    "Section hypothesis; the IPv4 instance is proved, the IPv6 instance is validated by the IP / RT cases of the stream",
+    "HashMap/HashSet iteration order is not modelled; the drivers sort maps by name before printing, theorems are up to permutation / lookup",
+    "hosts_parse_denotes / hosts_errors speak about files described by a syntax tree (HostsSpec.v): ASCII white space HT VT FF CR SP, "
+    "fields of ASCII non-space non-'#' characters, LF or CRLF terminators, a line's own text not ending in CR; an address-only line "
+    "is required to have a well-formed address only if white space follows it (the code's behaviour, see the module docstring)",
+    "hosts_roundtrip holds for names whose label octets are ASCII other than white space, '#' and '.' (every name read from a hosts "
+    "file is such a name; a Hosts value built by other means with e.g. a space inside a label does not survive serialise)",
+    "a hosts name whose leftmost label is '*' does not survive htoz | ztoh (the zone text reads it as a wildcard): counted in the "
+    "evidence as star_label_lost, reported to the coordinator",
 ]
 TRUSTED = [
     "model of Rust std's IpAddr::from_str / Display (coq/Ip/IpModel.v): hand transcription of core::net::parser.rs and ip_addr.rs, "
     "validated by the IP cases of the stream against the real std",
-    "IPv6 text round trip (parse (show a) = a) is not proved in Coq; validated by the stream (IP and RT cases)",
     "char::is_whitespace / str::lines / char_indices semantics as transcribed in coq/Hosts/HostsModel.v (L cases pin str::lines)",
+    "python reference reader of hosts(5) in vlib/p_c14.py (uses ipaddress.IPv6Address on strings over [0-9a-fA-F:.])",
 ]
 
 WSSET = " \t\x0b\x0c\r"
